@@ -587,3 +587,100 @@ def c06(run):
         if (o == "ok T") != (a == "ok T"):
             run.violation("bban.validate_national_checksum()", [cc, b], a, o, "implementation vs Lean Spec.National",
                           op=f)
+
+
+# --------------------------------------------------------------------------- C07
+@prop("C07",
+      rule="per implemented method (39): ten-digit account numbers - random, short numbers with leading "
+           "zeros, numbers around every integer literal of germany.py, and the exempt ranges - through "
+           "algorithms['DE:xx'].validate and compute; through IBAN(validate_bban=True) for bank codes of "
+           "every method present in the registry, unlisted banks and banks with unimplemented methods; "
+           "verdicts compared with the independent reference of the published rules; non-trivial = distinct "
+           "(method, account) pair",
+      note="37 of 39 methods proved equal to the published rule for all 10^10 accounts; 24 and 68 by "
+           "differential check only; int() of whole account strings is modelled for digit strings")
+def c07(run):
+    import natref
+    from realops import checksum, registry_lines
+    from streams import source_literals
+    S = Streams(run.seed * 1000 + 7)
+    r = S.r
+    ints, _ = source_literals()
+    lits = sorted({n + k for n in ints if 0 <= n < 10 ** 10 for k in (-1, 0, 1) if 0 <= n + k < 10 ** 10})
+    methods = sorted(k[3:] for k in checksum.algorithms if k.startswith("DE:"))
+    ops, meta = [], []
+    per = run.scale(400, 30000)
+    for m in methods:
+        accts = ["%010d" % n for n in lits]
+        for j in range(per):
+            k = r.random()
+            if k < 0.55:
+                accts.append("".join(r.choice(DIGITS) for _ in range(10)))
+            elif k < 0.8:
+                accts.append("%010d" % r.randrange(10 ** r.randint(1, 9)))
+            elif k < 0.9:
+                accts.append("0" + "%09d" % r.randrange(390000000, 505000000))
+            else:
+                a = list("".join(r.choice(DIGITS) for _ in range(10)))
+                for p in r.sample(range(10), r.randint(1, 5)):
+                    a[p] = r.choice("089")
+                accts.append("".join(a))
+        for a in accts:
+            ops.append(["algo.validate", hx("DE:" + m), "-", hx(a)])
+            meta.append((m, a))
+            if r.random() < 0.15:
+                ops.append(["algo.compute", hx("DE:" + m), hx(a)])
+                meta.append(None)
+    reals, _ = run.correspond("methods", ops)
+    for f, mt, a in zip(ops, meta, reals):
+        if mt is None:
+            continue
+        m, acct = mt
+        want = natref.de(m, acct)
+        if want is None:
+            run.notes.append("no reference for method " + m)
+            continue
+        got = a == "ok T"
+        verdict = a in ("ok T", "ok F", "err InvalidBBANChecksum")
+        okv = (got in want) if isinstance(want, set) else (got == want)
+        if not verdict or not okv:
+            run.violation("algorithms['DE:%s'].validate" % m, [acct], a,
+                          "accept" if want is True else "reject" if want is False else "either",
+                          "implementation vs independent reference of the Bundesbank rule", op=f)
+    # dispatch through the public IBAN API
+    de_banks = S.banks_of("DE")
+    by_algo = {}
+    for e in de_banks:
+        by_algo.setdefault(e.get("checksum_algo"), []).append(e)
+    ops2, meta2 = registry_lines(de_banks), [None] * (len(de_banks) + 1)
+    first = {}
+    for e in de_banks:
+        first.setdefault(e["bank_code"], e)
+    for algo, es in sorted(by_algo.items(), key=lambda kv: str(kv[0])):
+        for e in r.sample(es, min(len(es), run.scale(2, 20))):
+            for _ in range(run.scale(6, 60)):
+                acct = "".join(r.choice(DIGITS) for _ in range(10))
+                b = e["bank_code"] + acct
+                i = "DE" + iban_check_digits("DE", b) + b
+                ops2.append(["iban.new", hx(i), "F", "T"])
+                meta2.append((first[e["bank_code"]].get("checksum_algo"), acct, i))
+    for _ in range(run.scale(30, 500)):   # unlisted banks
+        bank = "".join(r.choice(DIGITS) for _ in range(8))
+        if bank in first:
+            continue
+        acct = "".join(r.choice(DIGITS) for _ in range(10))
+        i = "DE" + iban_check_digits("DE", bank + acct) + bank + acct
+        ops2.append(["iban.new", hx(i), "F", "T"])
+        meta2.append((None, acct, i))
+    reals2, _ = run.correspond("dispatch", ops2)
+    for f, mt, a in zip(ops2, meta2, reals2):
+        if mt is None:
+            continue
+        algo, acct, i = mt
+        want = natref.de(algo, acct) if algo in methods else True
+        got = a.startswith("ok ")
+        okv = (got in want) if isinstance(want, set) else (got == want)
+        if not okv or not (got or a == "err InvalidBBANChecksum"):
+            run.violation("IBAN(text, validate_bban=True)", [i, "method " + str(algo)], a,
+                          "accepted" if want is True else "InvalidBBANChecksum" if want is False else "either",
+                          "dispatch bank code -> method -> published rule", op=f)
